@@ -247,7 +247,8 @@ def run(ctx):
                                        "observed": o[1] if o[0] == "err" else "differs"})
                 # multi_time: column k equals the time=t_k result
                 # (a list with repeats and a list without repeats that is not ascending: the order asked for is the order returned)
-                for mt in ([0.0, 2.0, 0.0], [2.5, 0.5, 1.0]):
+                # ... and a list longer than any plausible internal block of time points (40, with repeats, not ascending)
+                for mt in ([0.0, 2.0, 0.0], [2.5, 0.5, 1.0], [float((7 * k_) % 5) / 2.0 for k_ in range(40)]):
                     o = enc.outcome(lambda: f(Xq, multi_time=mt, **kw))
                     real_calls += 1
                     if o[0] != "ok":
@@ -255,7 +256,8 @@ def run(ctx):
                                       {"class": cname, "method": meth, "kw": kw, "multi_time": mt})
                     else:
                         outs = o[1] if isinstance(o[1], tuple) else (o[1],)
-                        for k_, tk in enumerate(mt):
+                        for k_ in (range(len(mt)) if len(mt) <= 3 else (0, 17, 31, 32, 33, 39)):
+                            tk = mt[k_]
                             single = f(Xq, tk, **kw)
                             singles = single if isinstance(single, tuple) else (single,)
                             for a, b in zip(outs, singles):
